@@ -114,6 +114,14 @@ fn part_b(depth: usize, roots_w: usize) -> (explore::Stats, Acc) {
                 }
             }
         }
+        // replace_subject moves the assertions onto the new subject: the same information assembled by adding them one by one must be identical
+        for (sn, ns) in [("leaf", Envelope::new("s2")), ("node", Envelope::new("s3").add_assertion("q", "r")), ("node-sharing-an-assertion", Envelope::new("s4").add_assertion("p1", "o1"))] {
+            acc.inc("law_checks");
+            let by_add = catch(|| { let mut r = ns.clone(); for x in e.assertions() { r = r.add_assertion_envelope(x).ok()? } Some(r) });
+            if let (Ok(Some(want)), Ok(got)) = (by_add, catch(|| e.replace_subject(ns.clone()))) {
+                if got.to_cbor_data() != want.to_cbor_data() { acc.viol(format!("C07|replace_subject|{sn}|differs-from-adding-one-by-one"), "replace_subject onto a new subject gives another envelope than adding the same assertions to that subject one by one", format!("b/{}/replace_subject({sn})", desc()), json!({"envelope": hex::encode(&b), "got": got.format_flat(), "want": want.format_flat()})) }
+            }
+        }
         acc.inc("law_checks");
         match catch(|| e.wrap_envelope().unwrap_envelope()) {
             Ok(Ok(r)) => if r.to_cbor_data() != b { acc.viol("C07|wrap-unwrap|differs", "unwrap(wrap(e)) differs from e", format!("b/{}/wrap-unwrap", desc()), json!({"envelope": hex::encode(&b)})) },
